@@ -232,9 +232,57 @@ def run_walker(fn, facts, on_check, clsname, focus=None):
     return still, len(scenarios)
 
 
+def adjacent_names(fn):
+    """names bound to an element of a list that is filtered by `v.start == <X>.start + <X>.length` (through locals that
+    snapshot X.start / X.length), directly (`y = L[0]`) or as loop variable: such an entity stands right behind X"""
+    snaps = {}
+    for n in ast.walk(fn):
+        if isinstance(n, ast.Assign) and len(n.targets) == 1 and isinstance(n.targets[0], ast.Name) \
+                and isinstance(n.value, ast.Attribute) and isinstance(n.value.value, ast.Name) and n.value.attr in ('start', 'length'):
+            snaps.setdefault(n.targets[0].id, set()).add((n.value.value.id, n.value.attr))
+
+    def parts(e):
+        """{(obj, attr)} summed by expression e, or None"""
+        if isinstance(e, ast.BinOp) and isinstance(e.op, ast.Add):
+            a, b = parts(e.left), parts(e.right)
+            return None if a is None or b is None else a + b
+        if isinstance(e, ast.Attribute) and isinstance(e.value, ast.Name) and e.attr in ('start', 'length'):
+            return [(e.value.id, e.attr)]
+        if isinstance(e, ast.Name) and e.id in snaps and len(snaps[e.id]) == 1:
+            return [list(snaps[e.id])[0]]
+        return None
+    lists = set()
+    for n in ast.walk(fn):
+        if isinstance(n, ast.Assign) and len(n.targets) == 1 and isinstance(n.targets[0], ast.Name) \
+                and isinstance(n.value, ast.ListComp) and len(n.value.generators) == 1:
+            g = n.value.generators[0]
+            if not isinstance(g.target, ast.Name):
+                continue
+            v = g.target.id
+            conds = []
+            for c in g.ifs:
+                conds.extend(c.values if isinstance(c, ast.BoolOp) and isinstance(c.op, ast.And) else [c])
+            for c in conds:
+                if isinstance(c, ast.Compare) and len(c.ops) == 1 and isinstance(c.ops[0], ast.Eq):
+                    for a, b in ((c.left, c.comparators[0]), (c.comparators[0], c.left)):
+                        if isinstance(a, ast.Attribute) and isinstance(a.value, ast.Name) and a.value.id == v and a.attr == 'start':
+                            ps = parts(b)
+                            if ps and len(ps) == 2 and ps[0][0] == ps[1][0] and {ps[0][1], ps[1][1]} == {'start', 'length'}:
+                                lists.add(n.targets[0].id)
+    out = set()
+    for n in ast.walk(fn):
+        if isinstance(n, ast.Assign) and len(n.targets) == 1 and isinstance(n.targets[0], ast.Name) \
+                and isinstance(n.value, ast.Subscript) and isinstance(n.value.value, ast.Name) and n.value.value.id in lists:
+            out.add(n.targets[0].id)
+        if isinstance(n, ast.For) and isinstance(n.target, ast.Name) and isinstance(n.iter, ast.Name) and n.iter.id in lists:
+            out.add(n.target.id)
+    return out
+
+
 def analyse_function(idx, mod, cls, fn, focus=None):
     """-> dict label -> list of (verdict, why, fields, line, checkpoint kind, names)"""
     res = {}
+    spans.ADJACENT = adjacent_names(fn)
     facts = facts_for(idx, mod)
     if cls is not None and cls.name == 'ChoiceModel' and fn.name == 'parse':
         facts = choice_facts(idx, mod)
